@@ -106,7 +106,7 @@ func dbsimGen(r *rand.Rand, mode string, thorough bool) dbCase {
 		if mode == "lineage" || mode == "resources" {
 			knobs.Advance = pick(r, 1, 2, 4)
 		}
-		c.Sessions = append(c.Sessions, dbSession{Opts: opts, Clients: [][]dbOp{prog}, Knobs: knobs, RelPath: mode != "resources" && r.Intn(6) == 0})
+		c.Sessions = append(c.Sessions, dbSession{Opts: opts, Clients: [][]dbOp{prog}, Knobs: knobs, RelPath: mode != "resources" && r.Intn(6) == 0, Symlink: mode != "resources" && r.Intn(8) == 0})
 	}
 	return c
 }
